@@ -72,9 +72,13 @@ class Ctx:
         """Record a violated obligation.  Identity = (rule, basename(file), function, construct)."""
         v = {'property': self.prop, 'rule': rule, 'file': os.path.relpath(file, self.repo) if file and os.path.isabs(file) else file,
              'function': function, 'construct_key': norm(construct), 'what_fails': what, 'line': line, 'facts': facts}
+        inst = '%s:%s:%s' % (v['file'], function, v['construct_key'])
+        for o in self.violations:
+            if (o['rule'], o['file'], o['function'], o['construct_key']) == (rule, v['file'], function, v['construct_key']):
+                o.setdefault('more_sites', []).append(line)
+                return
         self.violations.append(v)
-        self.obligations.append({'rule': rule, 'instance': '%s:%s:%s' % (v['file'], function, v['construct_key']),
-                                 'status': 'violated', 'detail': what})
+        self.obligations.append({'rule': rule, 'instance': inst, 'status': 'violated', 'detail': what})
 
     def check(self, ok, rule, file, function, construct, what, line=None, facts=None, detail=''):
         """Convenience: obligation that holds iff ok."""
